@@ -27,17 +27,35 @@ META = {
 }
 
 SHAPES = ["near_unanimous", "near_unanimous", "near_unanimous_incomplete", "near_unanimous_incomplete", "block_cyclic",
-          "block_cyclic", "sparse_block", "incomplete", "complete", "cyclic_incomplete", "identical"]
+          "block_cyclic", "sparse_block", "incomplete", "complete", "cyclic_incomplete", "identical", "floaters",
+          "floaters", "mixture", "cyclic_ties", "camps", "camps", "incomplete", "incomplete", "incomplete", "incomplete",
+          "sparse_block", "sparse_block"]
+
+
+FIXED_SCHEMES = [gen.PRESETS[k] for k in ("unifying", "pseudodistance", "induced", "extended", "unifying_half",
+                                           "induced_half")]
 
 
 @st.composite
 def parfront_cases(draw, tier):
-    scheme = draw(st.one_of(gen.free_schemes(), gen.tie_averse_schemes(), gen.preset_multiples(), gen.near_presets()))
-    ds = draw(gen.datasets(max_n=7 if tier == "thorough" else 6, min_n=2, max_m=5, shapes=SHAPES))
-    return {"scheme": scheme, "dataset": ds}
+    # every generated dataset is examined under two drawn schemes AND under the presets: with the presets B[2] = T[0]
+    # (or T = 0 ...), so pair costs are often exactly equal (before == tied, before == after) - the regime in which
+    # robust and non-robust arcs differ and in which merges cascade backwards (measured on an independently written
+    # breaking change: about 3 datasets in 10^4 expose it, all under preset schemes on sparse data)
+    schemes = [draw(st.one_of(gen.free_schemes(), gen.tie_averse_schemes(), gen.near_presets())),
+               draw(st.one_of(gen.free_schemes(), gen.preset_multiples()))]
+    ds = draw(gen.datasets(max_n=7 if tier == "thorough" else 6, min_n=2, max_m=6, shapes=SHAPES))
+    return {"schemes": schemes, "dataset": ds}
 
 
 def check_parfront(case, ctx):
+    if "scheme" in case:            # replay files recorded before schemes were batched
+        return check_parfront_one({"scheme": case["scheme"], "dataset": case["dataset"]}, ctx)
+    for scheme in case["schemes"] + FIXED_SCHEMES:
+        check_parfront_one({"scheme": scheme, "dataset": case["dataset"]}, ctx)
+
+
+def check_parfront_one(case, ctx):
     rankings, scheme = case["dataset"]["rankings"], case["scheme"]
     d, s = lib.mk_dataset(rankings), lib.mk_scheme(scheme)
     inst = oracle.Instance(rankings, scheme)
@@ -161,5 +179,5 @@ def check_consistency(case, ctx):
 
 
 def subchecks():
-    return [HypSub("parfront", parfront_cases, check_parfront, 6000, 80000),
+    return [HypSub("parfront", parfront_cases, check_parfront, 30000, 300000),
             HypSub("consistent_with", consistency_cases, check_consistency, 12000, 200000)]
